@@ -313,6 +313,12 @@ where
     let mut shift = -jac_inv * func_eval;
     guess += &shift;
 
+    // The first step is a step like any other: if it is within tolerance the
+    // iteration has converged (a zero step would make the update below 0/0)
+    if shift.norm().abs() <= tol {
+        return Ok(guess);
+    }
+
     while n < n_max {
         let func_eval_last = func_eval;
         func_eval = func(guess.as_slice());
